@@ -100,6 +100,7 @@ func (u *Unit) VerifyFunc() {
 		}
 	}
 	u.globalAxioms(st)
+	u.soleClosers(st, fr)
 	// vacuity guard: requires ∧ type invariants must be satisfiable
 	if r := u.check(st); r == "unsat" {
 		u.errs = append(u.errs, "vacuity: requires ∧ type invariants is unsatisfiable")
@@ -198,6 +199,13 @@ func (u *Unit) topReturn(st *State, fr *Frame, res []Val) {
 		vals = append(vals, top.Vals[p].T)
 	}
 	vals = append(vals, rterms...)
+	type pend struct {
+		name, clause string
+		tags         []string
+		goal         Term
+	}
+	var pends []pend
+	var goals []Term
 	for i, cl := range u.C.Clauses {
 		if cl.Kind != "ensures" {
 			continue
@@ -212,7 +220,18 @@ func (u *Unit) topReturn(st *State, fr *Frame, res []Val) {
 		if lbl == "" {
 			lbl = fmt.Sprintf("e%d", i)
 		}
-		u.Prove(st.Clone(), u.obligName("post", lbl), "post", u.tagsOr(cl.Tags), u.Fn.Pos(), "ensures "+cl.Text, g, vals)
+		pends = append(pends, pend{u.obligName("post", lbl), "ensures " + cl.Text, u.tagsOr(cl.Tags), g})
+		goals = append(goals, g)
+	}
+	// one query for the conjunction first; individual queries only if it is not discharged
+	allOK := len(goals) > 1 && u.check(st, Not(And(goals...))) == "unsat"
+	for _, p := range pends {
+		if allOK {
+			o := u.getOblig(p.name, "post", p.tags, u.Fn.Pos(), p.clause)
+			o.Paths++
+			continue
+		}
+		u.Prove(st.Clone(), p.name, "post", p.tags, u.Fn.Pos(), p.clause, p.goal, vals)
 	}
 	u.lockBalance(st, fr)
 }
@@ -404,6 +423,9 @@ type loopEffects struct {
 	localHeap map[*ssa.Alloc]bool // heap allocs of the frame written directly
 	keys      map[string]bool     // memory keys written through other pointers
 	all       bool
+	external  bool
+	why       []string
+	ghosts    map[string]bool
 	iters     map[ssa.Value]bool
 	desigs    map[string]bool
 	chans     bool
@@ -448,6 +470,7 @@ func (u *Unit) collectEffects(fn *ssa.Function, blocks map[*ssa.BasicBlock]bool,
 				}
 			case *ssa.Go:
 				eff.all = true
+				eff.why = append(eff.why, "go statement")
 			case *ssa.Defer:
 				// runs at exit, not in the loop
 			case *ssa.Call:
@@ -490,6 +513,7 @@ func (u *Unit) callEffects(fn *ssa.Function, c *ssa.CallCommon, eff *loopEffects
 			eff.chans = true
 		case "copy":
 			eff.all = true
+			eff.why = append(eff.why, "builtin copy")
 		}
 		return
 	}
@@ -497,13 +521,18 @@ func (u *Unit) callEffects(fn *ssa.Function, c *ssa.CallCommon, eff *loopEffects
 		for _, d := range u.funcDesignators(f) {
 			eff.desigs[d] = true
 		}
+		if f.Pkg != nil && f.Pkg.Pkg.Path() == "sync" {
+			eff.ghosts["held"] = true
+			eff.ghosts["wg"] = true
+			return
+		}
 		if ct, ok := u.P.Contracts[f]; ok && !ct.Inline {
-			u.contractEffects(ct, eff)
+			u.contractEffects(ct, eff, u.staticParamTypes(f, ct, c))
 			return
 		}
 		for _, d := range u.funcDesignators(f) {
 			if ct, ok := u.P.Externs[d]; ok {
-				u.contractEffects(ct, eff)
+				u.contractEffects(ct, eff, u.staticParamTypes(f, ct, c))
 				return
 			}
 		}
@@ -514,8 +543,29 @@ func (u *Unit) callEffects(fn *ssa.Function, c *ssa.CallCommon, eff *loopEffects
 		}
 		if f.Pkg != nil && strings.HasPrefix(f.Pkg.Pkg.Path(), modulePath) {
 			eff.all = true
+			eff.why = append(eff.why, "uncontracted in-repo callee "+f.String())
+		} else if f.Blocks == nil || f.Pkg == nil || !strings.HasPrefix(f.Pkg.Pkg.Path(), modulePath) {
+			// external callee without a contract: same rule as at the call itself
+			sig := f.Signature
+			for i := 0; i < sig.Params().Len(); i++ {
+				if u.P.TW.SortOf(sig.Params().At(i).Type()) == SV {
+					eff.all = true
+					eff.why = append(eff.why, "uncontracted extern callee with reference args "+f.String())
+				}
+			}
+			if sig.Recv() != nil && u.P.TW.SortOf(sig.Recv().Type()) == SV {
+				eff.all = true
+				eff.why = append(eff.why, "uncontracted extern method "+f.String())
+			}
 		}
 		return
+	}
+	for _, d := range u.dynDesignatorsSafe(c) {
+		switch d {
+		case "context.Context.Err", "context.Context.Done":
+			eff.chans = true
+			return
+		}
 	}
 	// local closure through a variable?
 	if ld, ok := c.Value.(*ssa.UnOp); ok && ld.Op == token.MUL {
@@ -532,11 +582,37 @@ func (u *Unit) callEffects(fn *ssa.Function, c *ssa.CallCommon, eff *loopEffects
 	}
 	for _, d := range u.dynDesignatorsSafe(c) {
 		if ct, ok := u.P.Externs[d]; ok {
-			u.contractEffects(ct, eff)
+			u.contractEffects(ct, eff, u.staticParamTypes(nil, ct, c))
 			return
 		}
 	}
 	eff.all = true
+	eff.why = append(eff.why, "dynamic call "+strings.Join(u.dynDesignatorsSafe(c), "|"))
+}
+
+func (u *Unit) staticParamTypes(callee *ssa.Function, ct *Contract, c *ssa.CallCommon) map[string]types.Type {
+	out := map[string]types.Type{}
+	sig := c.Signature()
+	names := u.paramNames(callee, ct, sig, c.IsInvoke())
+	var tys []types.Type
+	if callee != nil {
+		for _, p := range callee.Params {
+			tys = append(tys, p.Type())
+		}
+	} else {
+		if c.IsInvoke() {
+			tys = append(tys, c.Value.Type())
+		}
+		for i := 0; i < sig.Params().Len(); i++ {
+			tys = append(tys, sig.Params().At(i).Type())
+		}
+	}
+	for i, n := range names {
+		if i < len(tys) {
+			out[n] = tys[i]
+		}
+	}
+	return out
 }
 
 func (u *Unit) dynDesignatorsSafe(c *ssa.CallCommon) []string {
@@ -549,21 +625,114 @@ func (u *Unit) dynDesignatorsSafe(c *ssa.CallCommon) []string {
 	return u.dynDesignators(c)
 }
 
-func (u *Unit) contractEffects(ct *Contract, eff *loopEffects) {
+// staticType computes the Go type of a simple contract expression from
+// parameter types alone (no state), or nil.
+func (u *Unit) staticType(ex Expr, ptys map[string]types.Type, pk *types.Package) types.Type {
+	switch x := ex.(type) {
+	case EIdent:
+		return ptys[x.Name]
+	case ESel:
+		bt := u.staticType(x.X, ptys, pk)
+		if bt == nil {
+			return nil
+		}
+		if obj, _ := lookupFieldAnyPkg(bt, x.Name); obj != nil {
+			return obj.Type()
+		}
+	case EUnary:
+		if x.Op == "*" {
+			bt := u.staticType(x.X, ptys, pk)
+			if bt == nil {
+				return nil
+			}
+			if pt, ok := bt.Underlying().(*types.Pointer); ok {
+				return pt.Elem()
+			}
+		}
+	case EIndex:
+		bt := u.staticType(x.X, ptys, pk)
+		if bt == nil {
+			return nil
+		}
+		switch t := bt.Underlying().(type) {
+		case *types.Slice:
+			return t.Elem()
+		case *types.Map:
+			return t.Elem()
+		}
+	case ECall:
+		if x.Fn == "unbox" && len(x.Args) == 2 {
+			if sv, ok := x.Args[1].(EStr); ok {
+				return u.P.typeByName(pk, nil, sv.V)
+			}
+		}
+	}
+	return nil
+}
+
+func (u *Unit) contractEffects(ct *Contract, eff *loopEffects, ptys map[string]types.Type) {
 	if ct.NoFrame {
 		eff.all = true
 		return
 	}
 	for _, cl := range ct.Clauses {
-		if cl.Kind == "modifies" && len(cl.Exprs) > 0 {
-			// key-level precision needs evaluation; be conservative
+		if cl.Kind != "modifies" {
+			continue
+		}
+		for _, ex := range cl.Exprs {
+			switch x := ex.(type) {
+			case EIdent:
+				switch x.Name {
+				case "external":
+					eff.external = true
+					continue
+				case "everything":
+					eff.all = true
+					continue
+				}
+			case ECall:
+				if g, ok := u.P.Ghosts[x.Fn]; ok && g.State {
+					eff.ghosts["u_"+g.Name] = true
+					continue
+				}
+				if x.Fn == "mem" && len(x.Args) == 1 {
+					if sv, ok := x.Args[0].(EStr); ok {
+						pk := u.Pkg
+						if ct.Pkg != "" {
+							pk = u.P.AllPkgs[ct.Pkg]
+						}
+						if t := u.P.typeByName(pk, nil, sv.V); t != nil {
+							u.leafKeys(t, eff.keys)
+							continue
+						}
+					}
+				}
+			}
+			pk := u.Pkg
+			if ct.Pkg != "" {
+				pk = u.P.AllPkgs[ct.Pkg]
+			}
+			if c, ok := ex.(ECall); ok && c.Fn == "elems" && len(c.Args) == 1 {
+				if t := u.staticType(c.Args[0], ptys, pk); t != nil {
+					if sl, ok := t.Underlying().(*types.Slice); ok {
+						u.leafKeys(sl.Elem(), eff.keys)
+						continue
+					}
+				}
+			}
+			if t := u.staticType(ex, ptys, pk); t != nil {
+				u.leafKeys(t, eff.keys)
+				continue
+			}
+			// anything else needs evaluation to be precise: be conservative
 			eff.all = true
+			eff.why = append(eff.why, "modifies clause of "+ct.Target+": "+cl.Text)
 		}
 	}
 }
 
 func (u *Unit) havocLoop(st *State, fr *Frame, li *loopInfo) {
-	eff := &loopEffects{cells: map[*ssa.Alloc]bool{}, localHeap: map[*ssa.Alloc]bool{}, keys: map[string]bool{}, iters: map[ssa.Value]bool{}, desigs: map[string]bool{}}
+	eff := &loopEffects{cells: map[*ssa.Alloc]bool{}, localHeap: map[*ssa.Alloc]bool{}, keys: map[string]bool{}, iters: map[ssa.Value]bool{}, desigs: map[string]bool{}, ghosts: map[string]bool{}}
 	u.collectEffects(fr.Fn, li.blocks, eff, 0)
 	// cells
 	var cells []*ssa.Alloc
@@ -590,11 +759,28 @@ func (u *Unit) havocLoop(st *State, fr *Frame, li *loopInfo) {
 			u.store(st, v.T, el, u.FreshOfType(st, "lh_"+a.Comment, el))
 		}
 	}
+	var gks []string
+	for g := range eff.ghosts {
+		gks = append(gks, g)
+	}
+	sort.Strings(gks)
+	for _, g := range gks {
+		key := "ghost:" + g
+		if so, ok := st.MemSort[key]; ok {
+			st.Mem[key] = u.Fresh("G_"+g, ArrSort(SV, so))
+		}
+	}
 	if eff.all {
 		// locals written in the loop were given fresh values above; the rest of the
 		// unleaked locals keep their values
+		debugf("loop %s of %s havocs everything: %v", li.label, fr.Fn.Name(), eff.why)
 		u.havocAll(st, fr)
 	} else {
+		if eff.external {
+			locals := u.notInLocals(u.unleakedLocals(fr))
+			pred := func(addr Term) Term { return And(locals(addr), u.notPrivate(addr)) }
+			st.AllHavocs = append(st.AllHavocs, pred)
+		}
 		var ks []string
 		for k := range eff.keys {
 			ks = append(ks, k)
@@ -606,6 +792,7 @@ func (u *Unit) havocLoop(st *State, fr *Frame, li *loopInfo) {
 			if _, ok := st.MemSort[k]; !ok {
 				continue
 			}
+			u.curMem(st, k)
 			u.havocKey(st, k, pred)
 		}
 	}
@@ -712,7 +899,7 @@ func (u *Unit) loadAt(st *State, fr *Frame, in ssa.Instruction, addr Term, t typ
 	u.lockCheck(st, fr, in, addr, false)
 	v := u.load(st, addr, t)
 	if v.Sort == SInt {
-		st.Assume(inRange(t, v))
+		u.Axiom(inRange(t, v)) // a typed location always holds a value of its type
 	}
 	return v
 }
